@@ -16,6 +16,7 @@ EXPLANATION = (
     "key_to_id are mutually inverse bit packings (bit-provenance evaluation).  R1b: build_from_raw clears the registry before rebuilding it.  R2b (tight guards): read_from_ints admits items of length 0 (the guards give start <= end and do not force start < end) and recycle counts the registry id OFFSET_EXTENDED_TYPE_ID itself.  R2c: RawSnap::read_from_ints refuses exactly on the relations the writer never produces (exact clause table).  Not decided: indistinguishability of all "
     "snapshots after a round trip (value level)."
 )
+EXPLANATION += ('  Round 4: R1b also requires that no Ok return of build_from_raw is reachable without passing the reset (a fast path for empty snapshots would keep stale UUID types).')
 ASSUMPTIONS = ["BTreeMap iteration order is key order (std)"]
 
 S = "libtw2_snapshot::snap::"
